@@ -167,7 +167,6 @@ def reorder_obligations(ctx, prog, pfx, parts=('write', 'fatal', 'crc', 'size'))
             if kind == 'unreachable' and not st['facts'].get('failed'):
                 bad.append('dead end at %s without failf' % blk)
         fails = [e for e in info['events'] if e[0] == 'fail']
-        ctx.floor(pfx + ' do_reorder: failf sites explored', len(fails), 1)
         # every erroneous state must end in failf: starting states OTHER and the two stores of error codes
         reached_fail = {c.get('status') for _, _, c, _ in fails}
         for need in codes(E):
@@ -176,12 +175,13 @@ def reorder_obligations(ctx, prog, pfx, parts=('write', 'fatal', 'crc', 'size'))
             if need not in reached_fail:
                 bad.append('no path with status %s reaches failf' % need)
         ctx.ob(pfx + '.reorder.errors_fatal', 'after taking the order head, do_reorder() either writes the block or '
-               'calls failf(); every error status (incl. ERR_OVERFLOW, ERR_BLKCRC) ends in failf', f.loc(fails[0][1]),
+               'calls failf(); every error status (incl. ERR_OVERFLOW, ERR_BLKCRC) ends in failf', f.loc(fails[0][1]) if fails else f.loc(),
                not bad, '; '.join(sorted(set(bad))) or '%d exits examined' % n, evals=n)
         # the diagnostic names the status
         args = info.get('fail_args', [])
         ok = bool(args) and all(a is not None and a[0] == 'call' and a[1] == 'err2str' for a in args)
-        ctx.ob(pfx + '.reorder.diagnostic', 'failf() in do_reorder() prints err2str(status)', f.loc(fails[0][1]), ok, '')
+        ctx.ob(pfx + '.reorder.diagnostic', 'failf() in do_reorder() prints err2str(status)', f.loc(fails[0][1]) if fails
+               else f.loc(), ok, '')
     return info
 
 
@@ -293,7 +293,7 @@ def retrieve_obligations(ctx, prog, pfx):
     info = analyse_retrieve(prog)
     f, E = info['f'], info['E']
     pe = [e for e in info['events'] if e[0] == 'push_emit']
-    ctx.floor(pfx + ' do_retrieve: pushes to emit_q explored', len(pe), 2)
+    ctx.floor(pfx + ' do_retrieve: pushes to emit_q explored', len(pe), 1)
     bad = []
     for _, ins, cells, facts in pe:
         if cells.get('estatus') != cells['rv']:
@@ -309,9 +309,6 @@ def retrieve_obligations(ctx, prog, pfx):
     bad = [str(c['rv']) for _, _, c, _ in pr if c['rv'] != E['MORE']]
     ctx.ob(pfx + '.retrieve.requeue', 'do_retrieve() re-queues the job to retr_q only for MORE',
            f.loc(pr[0][1]) if pr else f.loc(), bool(pr) and not bad, ' '.join(bad))
-    diag = [e for e in info['events'] if e[0] == 'diag']
-    ctx.ob(pfx + '.retrieve.no_diag', 'do_retrieve() raises no error itself (errors of speculative work are data)',
-           f.loc(), not diag, '; '.join('%s at line %s' % (callee(i), i.line) for _, i, _, _ in diag), nontrivial=False)
     return info
 
 
@@ -428,3 +425,86 @@ def parse_task_obligations(ctx, prog, pfx):
            'last input word (offset == tail_offs and live < 8*eof_missing) is a fatal ERR_EOF', f.loc(fails[0][1]) if
            fails else f.loc(), n > 0 and not bad and ok_code, '; '.join(sorted(set(bad))), evals=n)
     return info
+
+
+# ------------------------------------------------------------------------------------------------
+# position comparisons (struct position {major, minor}): facts and their meaning
+# ------------------------------------------------------------------------------------------------
+
+_SWAP = {'ult': 'ugt', 'ugt': 'ult', 'ule': 'uge', 'uge': 'ule', 'eq': 'eq', 'ne': 'ne',
+         'slt': 'sgt', 'sgt': 'slt', 'sle': 'sge', 'sge': 'sle'}
+
+
+def pos_fact_matchers(tag, is_a, is_b):
+    """fact matchers for comparisons between the major/minor fields of position A and position B.
+    is_a/is_b: predicates on the address key of a loaded field *without* its trailing '.major'/'.minor'.
+    Fact names: '<tag>:maj:<pred>' / '<tag>:min:<pred>' oriented A pred B."""
+    out = []
+    for fld in ('major', 'minor'):
+        for pred in ('ult', 'ule', 'ugt', 'uge', 'eq', 'ne'):
+            def m(c, fld=fld, pred=pred):
+                cn = cmp_norm(c)
+                if not cn:
+                    return None
+                p, x, y = cn
+                kx, ky = _load_key(x), _load_key(y)
+                if kx is None or ky is None or not kx.endswith('.' + fld) or not ky.endswith('.' + fld):
+                    return None
+                bx, by = kx[:-len(fld) - 1], ky[:-len(fld) - 1]
+                if is_a(bx) and is_b(by):
+                    pp = p
+                elif is_b(bx) and is_a(by):
+                    pp = _SWAP.get(p)
+                else:
+                    return None
+                return True if pp == pred else None
+            out.append(('%s:%s:%s' % (tag, 'maj' if fld == 'major' else 'min', pred), m))
+    return out
+
+
+def pos_relations(tag, facts):
+    """set of relations A ? B in {'LT','EQ','GT'} consistent with the recorded comparison facts"""
+    def holds(pred, r):
+        return {'ult': r == '<', 'ule': r in '<=', 'ugt': r == '>', 'uge': r in '>=', 'eq': r == '=', 'ne': r != '='}[pred]
+    rels = set()
+    for maj in '<=>':
+        for mn in '<=>':
+            ok = True
+            for name, val in facts.items():
+                if not isinstance(name, str) or not name.startswith(tag + ':'):
+                    continue
+                _, fld, pred = name.split(':')
+                if holds(pred, maj if fld == 'maj' else mn) != val:
+                    ok = False
+                    break
+            if ok:
+                r = maj if maj != '=' else mn
+                rels.add({'<': 'LT', '=': 'EQ', '>': 'GT'}[r])
+    return rels
+
+
+def drop_facts(st, tag):
+    for k in [k for k in st['facts'] if isinstance(k, str) and k.startswith(tag + ':')]:
+        del st['facts'][k]
+
+
+def nonempty_fact(qname):
+    """fact: queue `qname` is non-empty (tests of its .size against 0)"""
+    def m(c):
+        k = _load_key(c)
+        if k == 'G:expand:%s.size' % qname:
+            return True
+        cn = cmp_norm(c)
+        if cn:
+            p, x, y = cn
+            if _load_key(x) == 'G:expand:%s.size' % qname and y == ('const', 0):
+                return {'ne': True, 'ugt': True, 'eq': False}.get(p)
+        return None
+    return ('nonempty:' + qname, m)
+
+
+def flag_fact(name, key):
+    def m(c):
+        c = strip_casts(c)
+        return True if _load_key(c) == key else None
+    return (name, m)
